@@ -26,15 +26,13 @@ def _root_.Typedpy.Alias.AliasRow.safe (r : AliasRow) : Bool := !r.argMutated &&
 
 /-- the known-finding rows (same sites as the keys in known_findings.json) -/
 def knownRows : List (OpK × Kind × Cat) := [
-  -- OneOf / AllOf store the caller's object, not the option's normalised copy
-  (.construct, .oneOf, .coll), (.construct, .oneOf, .inline), (.construct, .oneOf, .wrap),
-  (.construct, .allOf, .coll), (.construct, .allOf, .inline), (.construct, .allOf, .wrap),
-  (.setattr, .oneOf, .coll), (.setattr, .oneOf, .inline), (.setattr, .oneOf, .wrap),
-  (.setattr, .allOf, .coll), (.setattr, .allOf, .inline), (.setattr, .allOf, .wrap)]
+  -- `AnyOf.serialize` hands every value to its last non-None option: a stored collection reaches `Boolean.serialize` /
+  -- `Enum.serialize`, which return whatever they are given — `<field>.serialize(x.f)` is the live collection
+  (.fieldSerialize, .misfit, .scalar), (.fieldSerialize, .misfit, .enum)]
 
 /-- rows that were findings of the first round and were repaired in typedpy: the `return value` short cuts
     of Array/Deque/Map.serialize (commit 5e8a8ad: fast serialization and `<field>.serialize` handed out the
-    stored collection) the Set field without `items` (commit d7f6fe4: kept the caller's set) and the schema default (commit c0c3c23) -/
+    stored collection) the Set field without `items` (commit d7f6fe4: kept the caller's set), the schema default (commit c0c3c23) and OneOf / AllOf (commit 89fd84a) -/
 def fixedRows : List (OpK × Kind × Cat) := [
   (.fieldSerialize, .array, .number), (.fieldSerialize, .array, .string), (.fieldSerialize, .array, .untyped),
   (.fieldSerialize, .deque, .untyped), (.fieldSerialize, .map, .untyped),
@@ -42,7 +40,13 @@ def fixedRows : List (OpK × Kind × Cat) := [
   (.fastSerialize, .deque, .untyped), (.fastSerialize, .map, .untyped),
   (.construct, .set, .untyped), (.setattr, .set, .untyped),
   -- commit c0c3c23: structure_to_schema put a field's non-callable mutable default live into the schema
-  (.toSchema, .default, .any)]
+  (.toSchema, .default, .any),
+  -- commit 89fd84a (supersedes 95931f6): OneOf / AllOf store a private deep copy of the given value (they kept the
+  -- caller's own object)
+  (.construct, .oneOf, .coll), (.construct, .oneOf, .inline), (.construct, .oneOf, .wrap),
+  (.construct, .allOf, .coll), (.construct, .allOf, .inline), (.construct, .allOf, .wrap),
+  (.setattr, .oneOf, .coll), (.setattr, .oneOf, .inline), (.setattr, .oneOf, .wrap),
+  (.setattr, .allOf, .coll), (.setattr, .allOf, .inline), (.setattr, .allOf, .wrap)]
 
 def isKnown (r : AliasRow) : Bool := knownRows.contains (r.op, r.kind, r.cat)
 
